@@ -249,6 +249,10 @@ pub fn run(ctx: &Ctx) -> i32 {
     let npre = ["a", "ab", "aé", "b"];
     let t = sweep(ctx, &npre, ctx.tier.pick(3, 4), &c);
     bounds.push(format!("<={} components over {{a,ab,aé,b}} (prefix-related names): {} ordered pairs", ctx.tier.pick(3, 4), t));
+    // names that look like shell shorthand: relative() is lexical, it neither expands nor rejects them
+    let nsh = ["a", "a~", "$x", "~"];
+    let t = sweep(ctx, &nsh, 3, &c);
+    bounds.push(format!("<=3 components over {{a,a~,$x,~}} (names containing '~' and '$'): {} ordered pairs", t));
     // long paths: the number of '..' and of kept components grows with the depth; every depth up to 64 on
     // either side, against the root, a sibling chain and a chain sharing a prefix of every length
     {
